@@ -246,7 +246,8 @@ def write_evidence(ctx, mod, t0, obligations, discharged, axioms, violations):
         "wall_s": round(time.time() - t0, 2),
         "violations": violations,
     }
-    d = VERIF / "evidence"
+    # evidence describes runs against /repo itself; runs against a scratch copy (VERIF_REPO) go elsewhere
+    d = VERIF / ("evidence" if str(REPO) == "/repo" else "evidence-scratch")
     d.mkdir(exist_ok=True)
     (d / f"{ctx.pid}.json").write_text(json.dumps(ev, indent=1, default=str) + "\n")
 
